@@ -67,6 +67,15 @@ def edge_binding(inst: Instance) -> dict[tuple[str, str, str], str | int]:
     return out
 
 
+def _body_of(t: str, none_tasks: frozenset[str]):
+    """none_tasks entries: "a" -> task a returns None; "~a" -> task a returns falsy non-None values"""
+    if t in none_tasks:
+        return bodies.none_body
+    if "~" + t in none_tasks:
+        return bodies.falsy_body
+    return bodies.body
+
+
 def mkjob(inst: Instance, none_tasks: frozenset[str] = frozenset()) -> JobInstance:
     bind = edge_binding(inst)
     FB = TaskDefinition.func_enc(bodies.body)
@@ -77,8 +86,11 @@ def mkjob(inst: Instance, none_tasks: frozenset[str] = frozenset()) -> JobInstan
             npos[d] = max(npos[d], b + 1)
     tasks = {}
     for t, outs in inst.outs.items():
-        td = TaskDefinition(func=FN if t in none_tasks else FB, environment=[], input_schema={},
-                            output_schema={o: "Any" for o in outs}, needs_gpu=t in inst.gpu_tasks)
+        # the schema is DECLARED in numeric order of the output names ("0", "1", ..., "10", "11"), as generators do; the runner
+        # publishes and the controller completes in key-sorted order ("0", "1", "10", "11", "2", ...) = inst.outs[t]
+        declared = sorted(outs, key=lambda o: (len(o), o))
+        td = TaskDefinition(func=TaskDefinition.func_enc(_body_of(t, none_tasks)), environment=[], input_schema={},
+                            output_schema={o: "Any" for o in declared}, needs_gpu=t in inst.gpu_tasks)
         # one static positional argument after the upstream ones, one static keyword: exercises the merge in runner.run.
         # Parameters fed by an edge ALSO carry a static value (TaskBuilder.from_callable records defaults as static keyword
         # inputs; graph2job writes a placeholder at edge-fed positions): the upstream value must win.
@@ -124,12 +136,8 @@ def sequential(inst: Instance, none_tasks: frozenset[str] = frozenset()) -> dict
                 else:
                     kwargs[b] = vals[(e[0], e[1])]
             outs = sorted(inst.outs[t])
-            if t in none_tasks:
-                r = None
-                res = [r] if len(outs) == 1 else None
-            else:
-                r = bodies.body(*args, _t=t, _n=len(outs), **kwargs)
-                res = [r] if len(outs) == 1 else list(r)
+            r = _body_of(t, none_tasks)(*args, _t=t, _n=len(outs), **kwargs)
+            res = [r] if len(outs) == 1 else list(r)
             for o, v in zip(outs, res):
                 vals[(t, o)] = v
             done.add(t)
